@@ -340,3 +340,11 @@ func (d Dump) IndexTable() map[string]uint64 {
 	}
 	return out
 }
+
+
+// ParseRow decodes one canonical row.
+func ParseRow(r string) map[string]interface{} {
+	var m map[string]interface{}
+	_ = json.Unmarshal([]byte(r), &m)
+	return m
+}
